@@ -542,18 +542,17 @@ Vdouble AbstractDiscreteDistribution::getBounds() const
 
 void AbstractDiscreteDistribution::restrictToConstraint(const ConstraintInterface& c)
 {
-  try
-  {
-    const IntervalConstraint& pi = dynamic_cast<const IntervalConstraint&>(c);
-
-    if (!(*intMinMax_ <= pi))
-    {
-      *intMinMax_ &= c;
-      discretize();
-    }
-  }
-  catch (exception& e)
-  {
+  const IntervalConstraint* pi = dynamic_cast<const IntervalConstraint*>(&c);
+  if (!pi)
     throw Exception("AbstractDiscreteDistribution::restrictToConstraint: the constraint is not an interval");
+
+  // The new domain is the intersection, ends and their inclusion alike
+  // (comparing the bounds only would ignore a constraint that merely excludes an end).
+  IntervalConstraint inter(*intMinMax_);
+  inter &= *pi;
+  if (inter != *intMinMax_)
+  {
+    *intMinMax_ = inter;
+    discretize();
   }
 }
